@@ -64,6 +64,29 @@ def series(kind, n, seed):
     elif kind == 'tiny':
         # (alt/BTC price levels: window ranges go below 1e-8, the default absolute tolerance of np.isclose)
         c = gen.candles({'seed': seed, 'n': n, 'vol': 0.01, 'start': rng.choice([2.3e-6, 4.1e-8]), 'zero_vol_p': 0.0})
+    elif kind == 'flattail':
+        # a market that stops trading: the series ends with a long run of flat zero-volume candles at the last close (windows
+        # with zero range and zero volume at the END, where single-value results are taken); one more flat run in the middle
+        c = gen.candles({'seed': seed, 'n': n, 'vol': 0.006, 'start': 100.0, 'zero_vol_p': 0.0})
+        tail = min(n - 5, rng.choice([16, 35, 70]))
+        mid = n // 3
+        for a_, b_ in ((mid, min(mid + rng.choice([15, 40]), n - tail - 1)), (n - tail, n)):
+            for i in range(max(a_, 1), b_):
+                c[i, 1:5] = c[i - 1, 2]
+                c[i, 5] = 0.0
+        return c
+    elif kind == 'outside':
+        # alternating narrow and wide candles around a slowly moving centre on a coarse grid: the high rises and the low falls
+        # by exactly the same amount again and again (ties in directional-movement rules, inside/outside bars)
+        c = gen.candles({'seed': seed, 'n': n, 'vol': 0.0, 'flat_p': 0.0, 'start': 100.0, 'zero_vol_p': 0.0})
+        centre = 100.0
+        for i in range(n):
+            if rng.random() < 0.2:
+                centre += rng.choice([-0.5, 0.5, 1.0, -1.0])
+            half = 1.0 if i % 2 == 0 else rng.choice([2.0, 2.0, 1.5, 3.0])
+            o = centre + rng.choice([-0.5, 0.0, 0.5])
+            cl = centre + rng.choice([-0.5, 0.0, 0.5])
+            c[i, 1:5] = [o, cl, centre + half, centre - half]
     elif kind == 'zerovol':
         # minutes without a trade, as jesse's own gap filling writes them: flat at the previous close, volume 0
         c = gen.candles({'seed': seed, 'n': n, 'vol': 0.006, 'start': 100.0, 'zero_vol_p': 0.0})
@@ -131,6 +154,12 @@ def param_sets(name, sig, rng, how_many, small=False):
                     kw[k] = float(d) * (1.5 if v == 1 else 0.5) if d else float(v)
             if kw and any(not isinstance(x, int) or k.lower() != 'devtype' for k, x in kw.items()):
                 out.append(kw)
+        # every indicator that takes a moving-average selector: a few selector types with everything else at its default
+        for k, d in defaults.items():
+            if 'matype' in k.lower() and isinstance(d, int):
+                for m_ in (1, 3, 10, 12):
+                    if m_ != d:
+                        out.append({k: m_})
     for _ in range(how_many):
         kw = {}
         for k, d in defaults.items():
